@@ -135,6 +135,8 @@ type ReaderCfg struct {
 	Dup     int   // percentage of inbound UDP datagrams delivered twice
 	Seed    int64 // seed of the reordering
 	Extra   func(c *gortsplib.Client)
+	// AfterDescribe, when set, runs between the reader's DESCRIBE and its SETUPs
+	AfterDescribe func()
 }
 
 // Reader is a real gortsplib.Client reading from a bed.
@@ -219,6 +221,9 @@ func (b *Bed) NewReader(cfg ReaderCfg, path string, onPacket func(medi *descript
 	if err != nil {
 		c.Close()
 		return nil, fmt.Errorf("describe: %w", err)
+	}
+	if cfg.AfterDescribe != nil {
+		cfg.AfterDescribe()
 	}
 	if err = c.SetupAll(desc.BaseURL, desc.Medias); err != nil {
 		c.Close()
